@@ -8,15 +8,15 @@ CONSTANTS
   OrigTtl = 4
   OrigTtlAlt = 9
   RecTtls <- MC_RecTtls
-  Steps <- MCH_Steps
-  MaxMono = 12
-  MaxCalls = 2
+  Steps <- MCH3_Steps
+  MaxMono = 10
+  MaxCalls = 3
   ClkStarts <- MCH_Starts
-  ArgSet <- MCH_Args
+  ArgSet <- MCH3_Args
   RRV <- MCH_RRV
   SIGV <- MCH_SIGV
   KEYV <- MCH_KEYV
   NameCaseSigned = TRUE
   CacheRule = "required"
-INVARIANTS NotCachedSecure
+INVARIANTS TypeOK C06_SecureOnlyGenuine C06_SecureOnlyInWindow C06_TtlBound C06_FreshWithinRequirement
 CHECK_DEADLOCK FALSE
